@@ -42,7 +42,7 @@ type cvLayout struct {
 const cvRepo = "conv/repo"
 
 // writeLayout materialises a layout below root/conv/repo.
-func writeLayout(root string, cat *Catalogue, L cvLayout) error {
+func writeLayout(root string, cat *Catalogue, L cvLayout, untagged bool) error {
 	dir := filepath.Join(root, cvRepo)
 	if err := os.MkdirAll(filepath.Join(dir, "blobs", "sha256"), 0o755); err != nil {
 		return err
@@ -90,8 +90,11 @@ func writeLayout(root string, cat *Catalogue, L cvLayout) error {
 	idx := types.Index{SchemaVersion: 2, MediaType: types.MediaTypeOCI1ManifestList, Manifests: []types.Descriptor{}}
 	img := func(id, tag string) {
 		b := cat.C[id].Bytes
-		idx.Manifests = append(idx.Manifests, types.Descriptor{MediaType: mtLong[cat.C[id].Def.MT], Digest: digest.SHA256.FromBytes(b), Size: int64(len(b)),
-			Annotations: map[string]string{types.AnnotRefName: tag}})
+		d := types.Descriptor{MediaType: mtLong[cat.C[id].Def.MT], Digest: digest.SHA256.FromBytes(b), Size: int64(len(b))}
+		if !untagged {
+			d.Annotations = map[string]string{types.AnnotRefName: tag}
+		}
+		idx.Manifests = append(idx.Manifests, d)
 	}
 	img("m1", cat.TagReal["t1"])
 	img("m2", cat.TagReal["t2"])
@@ -192,11 +195,44 @@ func cmdConvert(args []string) {
 		nlay++
 		for _, store := range splitList(*stores) {
 			root := mkTemp("vh-conv-")
-			if err := writeLayout(root, cat, L); err != nil {
+			if err := writeLayout(root, cat, L, store == "dirgc"); err != nil {
 				fatal(err)
 			}
 			before := treeSum(root, "")
 			cfg := DefaultCfg(store)
+			if store == "dirgc" {
+				// C06: the layout of another tool with nothing tagged but the fallback tags, opened by a directory store that
+				// collects untagged manifests, has no grace period, keeps referrers only with a retained subject and removes empty repositories; the first thing that
+				// happens to the repository is a collection (which loads and converts the layout itself), then a second one
+				cfg = DefaultCfg("dir")
+				cfg.Untagged, cfg.Grace, cfg.EmptyRepo, cfg.Dangling, cfg.WithSubj = true, false, true, true, true
+				srv := NewSrv(cfg, root)
+				ex := NewExec(cat, srv, *seed)
+				repoDir := filepath.Join(root, cat.RepoReal["r1"])
+				err1 := srv.S.VerifGC(cat.RepoReal["r1"])
+				o, hung := observeGuarded(ex, "r1", oo)
+				sum1 := treeSumContent(root)
+				_, statErr := os.Stat(repoDir)
+				var err2 error
+				if !hung {
+					err2 = srv.S.VerifGC(cat.RepoReal["r1"])
+				}
+				sum2 := treeSumContent(root)
+				if statErr != nil {
+					err2 = nil // (collecting a repository that the first collection removed reports that it is gone)
+				}
+				if err1 != nil || err2 != nil {
+					o.Errs = append(o.Errs, fmt.Sprintf("gc: %v / %v", err1, err2))
+				}
+				events++
+				_ = enc.Encode(map[string]any{"k": "conv", "i": events, "lid": k, "layout": L, "store": store, "phase": "gc", "obs": o, "hung": hung,
+					"conv": false, "changed": true, "n": 0, "fsop": "", "variant": "", "idem": sum1 == sum2, "exists": statErr == nil})
+				if !hung {
+					closeGuarded(srv)
+				}
+				_ = os.RemoveAll(root)
+				continue
+			}
 			srv := NewSrv(cfg, root)
 			ex := NewExec(cat, srv, *seed)
 			for _, phase := range []string{"open", "reopen"} {
@@ -215,7 +251,7 @@ func cmdConvert(args []string) {
 				}
 				events++
 				_ = enc.Encode(map[string]any{"k": "conv", "i": events, "lid": k, "layout": L, "store": store, "phase": phase, "obs": o, "hung": hung,
-					"conv": convMarked(root), "changed": treeSum(root, "") != before, "n": 0, "fsop": "", "variant": ""})
+					"conv": convMarked(root), "changed": treeSum(root, "") != before, "n": 0, "fsop": "", "variant": "", "idem": true, "exists": true})
 				// a new server on every crash image of the conversion has to end up with the same result
 				for _, sn := range snaps {
 					rsrv := NewSrv(cfg, sn.dir)
@@ -224,7 +260,7 @@ func cmdConvert(args []string) {
 					events++
 					images++
 					_ = enc.Encode(map[string]any{"k": "conv", "i": events, "lid": k, "layout": L, "store": store, "phase": "crash", "obs": ro, "hung": rhung,
-						"conv": convMarked(sn.dir), "changed": true, "n": sn.n, "fsop": sn.op, "variant": sn.variant})
+						"conv": convMarked(sn.dir), "changed": true, "n": sn.n, "fsop": sn.op, "variant": sn.variant, "idem": true, "exists": true})
 					closeGuarded(rsrv)
 					_ = os.RemoveAll(sn.dir)
 				}
